@@ -1,7 +1,7 @@
 (* Proofs/C17.v — obligations over the facts regenerated from the source, and the
    bridge from those facts to the lockset theorem. *)
 From Coq Require Import List Bool String PeanoNat.
-From Cedar Require Import Model.Lockset Model.LocksetFacts Proofs.C17Lockset Proofs.C17Counter gen.FactsC17.
+From Cedar Require Import Model.Lockset Model.LocksetFacts Proofs.C17Lockset Proofs.C17Counter Proofs.C17Cache gen.FactsC17.
 Import ListNotations.
 Local Open Scope string_scope.
 Local Open Scope list_scope.
@@ -24,6 +24,11 @@ Proof. vm_compute. auto. Qed.
 
 Lemma vars_safe : forallb var_ok var_facts = true /\ var_facts <> [].
 Proof. split; [vm_compute; reflexivity|discriminate]. Qed.
+
+(* SessionCache.Store purges the id's command mappings whenever a different entry takes
+   the id - not only when it replaces a present one - i.e. it is the Store of the model *)
+Lemma store_purges_unconditionally : store_purge_ok store_purge = true.
+Proof. vm_compute. reflexivity. Qed.
 
 (* the session counter: the function that hands out counter values is atomic adds only *)
 Definition session_counter_ops : list cop :=
